@@ -8,10 +8,18 @@ ActionOf(k, i) ==
     LET r == RndS(Seed, k, 9, 3 * i, 5) IN
     IF i > 1 /\ r = 0 THEN [kind |-> "rerun", c |-> 0, o |-> 0]
     ELSE [kind |-> "analyse", c |-> 1 + RndS(Seed, k, 9, 3 * i + 1, NContracts), o |-> 1 + RndS(Seed, k, 9, 3 * i + 2, NOrders)]
-HistOf(k) == [i \in 1..(1 + RndS(Seed, k, 9, 1, MaxLen)) |-> ActionOf(k, i)]
+RandomHist(k) == [i \in 1..(1 + RndS(Seed, k, 9, 1, MaxLen)) |-> ActionOf(k, i)]
+(* the first NContracts * (NContracts - 1) histories are all ORDERED PAIRS of different contracts (analyse a, then b):
+   every contract is analysed after every other one at least once; the detector order rotates *)
+NPairs == NContracts * (NContracts - 1)
+PairHist(k) == LET a == 1 + ((k - 1) \div (NContracts - 1))
+                   r == 1 + ((k - 1) % (NContracts - 1))
+                   b == IF r >= a THEN r + 1 ELSE r
+               IN << [kind |-> "analyse", c |-> a, o |-> 1 + (k % NOrders)], [kind |-> "analyse", c |-> b, o |-> 1 + ((k + 1) % NOrders)] >>
+HistOf(k) == IF k <= NPairs THEN PairHist(k) ELSE RandomHist(k - NPairs)
 
 VARIABLE j
 GInit == j = 1
-GNext == j' \in {2 * j, 2 * j + 1} /\ j' <= NHist
-Emit == j > NHist \/ PrintT("@@H " \o ToJson([k |-> j, hist |-> HistOf(j)]) \o " H@@")
+GNext == j' \in {2 * j, 2 * j + 1} /\ j' <= NHist + NPairs
+Emit == j > NHist + NPairs \/ PrintT("@@H " \o ToJson([k |-> j, hist |-> HistOf(j)]) \o " H@@")
 =============================================================================
